@@ -192,3 +192,44 @@ func FromScalar(s kyber.Scalar) *big.Int {
 	}
 	return new(big.Int).SetBytes(b)
 }
+
+// Endo returns the scalars around the small multiples of the non-trivial cube roots of unity modulo q (the eigenvalues
+// of the efficient endomorphism x -> beta*x that curves with j = 0 - the BN and BLS12 families - use to split a scalar
+// multiplication): k*lambda + d for both roots, k in 1..4, d in -2..3. These are the values where the two halves of a
+// lattice decomposition change sign, vanish or coincide. Empty when q != 1 mod 3 (no such endomorphism).
+func Endo(q *big.Int) []NS {
+	three := big.NewInt(3)
+	qm1 := new(big.Int).Sub(q, big.NewInt(1))
+	if new(big.Int).Mod(qm1, three).Sign() != 0 {
+		return nil
+	}
+	e := new(big.Int).Div(qm1, three)
+	var lam *big.Int
+	for g := int64(2); g < 100; g++ {
+		l := new(big.Int).Exp(big.NewInt(g), e, q)
+		if l.Cmp(big.NewInt(1)) != 0 {
+			lam = l
+			break
+		}
+	}
+	if lam == nil {
+		return nil
+	}
+	lam2 := new(big.Int).Mod(new(big.Int).Mul(lam, lam), q)
+	var out []NS
+	seen := map[string]bool{}
+	for ri, r := range []*big.Int{lam, lam2} {
+		for k := int64(1); k <= 4; k++ {
+			for d := int64(-2); d <= 3; d++ {
+				v := new(big.Int).Mul(big.NewInt(k), r)
+				v.Add(v, big.NewInt(d)).Mod(v, q)
+				if seen[v.String()] {
+					continue
+				}
+				seen[v.String()] = true
+				out = append(out, NS{fmt.Sprintf("%d*lambda%d%+d", k, ri+1, d), v})
+			}
+		}
+	}
+	return out
+}
